@@ -20,6 +20,13 @@ func checkC15(p *Program, tier string) *Result {
 	ruleAtomicReload(p, r)
 	ruleGoField(p, r)
 	ruleBuildKeepsConfig(p, r)
+	// lookups in flight keep the list they were started with: the build must not write into the storage of a
+	// list it handed out before
+	csub := newResult("C16")
+	ruleConsumerReplaces(p, csub)
+	if r.takeFrom(csub, "R-FRESHDECODE", "builder-allocates") == 0 {
+		r.undecided("R-FRESHDECODE", "builder-allocates", "-", "the provider build's allocation clause was not produced")
+	}
 	r.floor("R-GOFIELD", 4)
 	r.Trusted = append(r.Trusted, "prometheus metric methods and the listed library receiver types are safe for concurrent use (threadSafeLib table in rule_race.go)", "the confined-type table in rule_race.go (checked by R-CONFINED)")
 	r.Assumptions = append(r.Assumptions, "shutdown interleavings and races inside third-party code are not analysed")
